@@ -1,0 +1,42 @@
+//! Verification-only introspection of BasicGarnishData (feature `verif_hooks`, off by default).
+//! Read-only: exposes the block layout of the heap and the heads of the linked stacks so an
+//! external monitor can check structural invariants at quiescent points.
+
+use crate::basic::companion::BasicDataCompanion;
+use crate::{BasicDataCustom, BasicGarnishData};
+
+impl<T, Companion> BasicGarnishData<T, Companion>
+where
+    T: BasicDataCustom,
+    Companion: BasicDataCompanion<T>,
+{
+    /// (start, cursor, size) of the instruction, jump table, symbol table, expression symbol,
+    /// data and custom data blocks, in heap order.
+    pub fn verif_blocks(&self) -> [(usize, usize, usize); 6] {
+        let b = |b: &crate::basic::storage::StorageBlock| (b.start, b.cursor, b.size);
+        [
+            b(self.instruction_block()),
+            b(self.jump_table_block()),
+            b(self.symbol_table_block()),
+            b(self.expression_symbol_block()),
+            b(self.data_block()),
+            b(self.custom_data_block()),
+        ]
+    }
+
+    pub fn verif_heap_len(&self) -> usize {
+        self.data().len()
+    }
+
+    /// data-block indexes of the current register, value and frame cells
+    pub fn verif_heads(&self) -> (Option<usize>, Option<usize>, Option<usize>) {
+        (self.current_register(), self.current_value(), self.current_frame())
+    }
+
+    /// (symbol, data index of its name) entries of the symbol table, in table order
+    pub fn verif_symbol_table(&self) -> Vec<(u64, usize)> {
+        (0..self.symbol_table_block().cursor)
+            .filter_map(|i| self.get_from_symbol_table_block_ensure_index(i).ok())
+            .collect()
+    }
+}
